@@ -47,8 +47,18 @@ class NPProxy:
 NPX = NPProxy()
 
 
+VIRTUAL_THREADS = [1]        # what numba.get_num_threads() answers under the interpreter: the harness decides
+
+
 class NumbaShim(types.SimpleNamespace):
-    pass
+    """`numba` as seen by interpreted kernel source: prange is range, the thread count is an environment answer
+    owned by the harness, anything else falls through to the real module."""
+
+    def get_num_threads(self):
+        return VIRTUAL_THREADS[0]
+
+    def __getattr__(self, name):
+        return getattr(numba, name)
 
 
 def pyfunc_of(obj):
